@@ -251,12 +251,23 @@ func (r *Receiver) SegmentHandlerFunc(w http.ResponseWriter, req *http.Request) 
 					}
 				}
 				if maxNrBufSegs > 0 {
-					deleteSegPath := filepath.Join(stream.trDir, fmt.Sprintf("%d%s", rsd.seqNr-maxNrBufSegs, stream.ext))
-					if fileExists(deleteSegPath) {
-						log.Debug("Deleting old segment", "path", deleteSegPath)
-						err = os.Remove(deleteSegPath)
-						if err != nil {
-							log.Warn("Failed to delete old segment", "path", deleteSegPath, "err", err)
+					deleteNrs := []uint32{rsd.seqNr - maxNrBufSegs}
+					if rsd.isShifted {
+						// The segments received before the shift was known are stored under their incoming numbers.
+						// They leave the storage at the same pace, unless that number lies inside the current window.
+						oldNr := rsd.seqNrIn - uint32(ch.startNr) - maxNrBufSegs
+						if oldNr < rsd.seqNr-maxNrBufSegs || oldNr > rsd.seqNr {
+							deleteNrs = append(deleteNrs, oldNr)
+						}
+					}
+					for _, deleteNr := range deleteNrs {
+						deleteSegPath := filepath.Join(stream.trDir, fmt.Sprintf("%d%s", deleteNr, stream.ext))
+						if fileExists(deleteSegPath) {
+							log.Debug("Deleting old segment", "path", deleteSegPath)
+							err = os.Remove(deleteSegPath)
+							if err != nil {
+								log.Warn("Failed to delete old segment", "path", deleteSegPath, "err", err)
+							}
 						}
 					}
 				}
